@@ -11,7 +11,10 @@ pub fn run_prop(args: &Args, prop: &str, bias: Bias, rule: &str) {
     let ncorpus = corpus.len() as u64;
     for c in 0..(args.n + ncorpus) {
         let len = 5 + rng.below(if args.tier == "thorough" { 56 } else { 30 }) as usize;
-        let mut case = if c < ncorpus { corpus[c as usize].clone() } else { gen_case(&mut rng, len, &bias) };
+        let mut case = if c < ncorpus { corpus[c as usize].clone() } else {
+            // a generator arithmetic slip must not take the check down: skip the case
+            match std::panic::catch_unwind(std::panic::AssertUnwindSafe(|| gen_case(&mut rng, len, &bias))) { Ok(c) => c, Err(_) => { out.count("generator_panic"); continue } }
+        };
         if c >= ncorpus && (prop == "C01" || c % 3 == 0) { add_deposit_withdraw_pairs(&mut rng, &mut case); }
         let nfail = out.monitor_failures.len();
         let r = match run_case(&mut out, prop, &case) { Some(r) => r, None => { out.count("deploy_failed"); continue } };
